@@ -575,6 +575,14 @@ pub mod cluster {
         state.known_nodes.get(&host_id).map(|n| n.verif_has_pool())
     }
 
+    /// Drops every node's state override: `is_enabled()` / `is_connected()` of the nodes of `state`
+    /// report the real pools again (`Node::is_connected` -> `NodeConnectionPool::is_connected`).
+    pub fn clear_state_overrides(state: &ClusterState) {
+        for node in state.known_nodes.values() {
+            node.verif_clear_override();
+        }
+    }
+
     /// A host filter that accepts exactly the peers whose host id is in the set.
     struct AcceptSet(std::collections::HashSet<Uuid>);
     impl HostFilter for AcceptSet {
